@@ -6,6 +6,7 @@ import SeqVerif.Model.C03Tokens
 import SeqVerif.Model.C03Frac
 import SeqVerif.Model.C03Search
 import SeqVerif.Model.C03Docs
+import SeqVerif.Model.C03TokenTable
 import Std.Data.HashMap
 /-!
 Driver for C03.  Lists: `,` inside a posting list / chunk, `;` between chunks / tokens, `|` between fields / blocks,
@@ -24,6 +25,7 @@ Driver for C03.  Lists: `,` inside a posting list / chunk, `;` between chunks / 
   ids.query <per> <ids> <positions> <lid@mid:rid;...>  -> ok <mid:rid:pos:loe;...>   (x = panic)
   tokens.gen <old|new> <rbs> <fields: hex,hex|...>   -> ok <field:isStart:total:startTID:hex,hex|...> | panic
   tokens.table <rbs> <base> <fields>               -> ok entries=<field:startIndex:startTID:blockIndex:valCount:min:max;...> vals=<hex,...> | panic
+  tokens.tablebytes <rbs> <base> <name pad> <fields>  -> ok <hex of every token TABLE block|...> loaded=<1 iff loadTable = kept table>
   tokens.select <hint> <minVal> <maxVals>          -> ok <l> <r>
   frac.index <mids> <rids> <allDocs> <posting> <minLID> <maxLID>  -> ok ids=<mid:rid,...> index=<...> asc=<lids> desc=<lids>
   docs.write <minBlockSize> <block lens> <ids> <docs hex,...>   (writeDoc for every pair, then Flush)
@@ -221,6 +223,21 @@ def step (line : String) : String :=
         s!"ok entries={fmtList fmtEntry w.entries ";"} vals={fmtList id vals}"
       | .error _ => "panic"
     | _, _, _ => "bad-op"
+  | ["tokens.tablebytes", rbs, base, pad, fs] =>
+    match rbs.toNat?, base.toNat?, pad.toNat?, parseTokFields fs with
+    | some rbs, some base, some pad, some fs =>
+      match genTokenBlocks bsNew rbs fs with
+      | .ok bs =>
+        let w := writeTokens rbs base bs
+        let digit := fun (n : Nat) => 48 + n % 10
+        let nameOf := fun (i : Nat) => [102, digit (i / 100), digit (i / 10), digit i] ++ List.replicate pad 95
+        let fes : List FieldEntries := (List.range fs.length).filterMap fun i =>
+          let es := w.entries.filter (·.field == i)
+          if es.isEmpty then none else some { name := nameOf i, entries := es }
+        let blocks := writeTable rbs fes []
+        s!"ok {fmtList fmtHex blocks "|"} loaded={fmtBool (decide (loadTable blocks = fes.map keptField))}"
+      | .error _ => "panic"
+    | _, _, _, _ => "bad-op"
   | ["tokens.select", hint, mn, mxs] =>
     match xhex? hint, xhex? mn, (mxs.splitOn ",").mapM xhex? with
     | some hint, some mn, some mxs =>
